@@ -61,10 +61,17 @@ def ast_cases(g, n, weights=None, size=(6, 18), max_depth=4, family='ast', opts=
         body, _ = ag.program(g.r.randint(*size))
         unit = g.units() if units else '    '
         text, rd = render_ast(body, unit, g.r.choice(['', '', ' ']))
-        exp = expect_of(body, rd)
+        it = Interp(rd.line_of, None)
+        exp = it.program(body)
         if exp[0] == 'err' and exp[1] == 'too-long': continue
         meta = dict(family=family, exp=list(exp[:4]) if exp[0] == 'ok' else [exp[0], exp[1], exp[2], exp[3]])
-        out.append(dict(op='compile', opts=opts, src=dict(text=text), meta=meta))
+        o = opts
+        if o is None and g.chance(0.3):
+            # options that must not change what these programs do (they contain no REM, no unknown and no Flipper command);
+            # a stack limit is only drawn well clear of the program's own nesting
+            o = g.r.choice([dict(include_comments=True), dict(supress_command_not_exist=True), dict(flipper_commands=False),
+                            dict(include_comments=True, stack_limit=max(60, it.max_depth + 10))])
+        out.append(dict(op='compile', opts=o, src=dict(text=text), meta=meta))
     return out
 
 
